@@ -175,3 +175,12 @@ CHECKS["C16"] = dict(
     outside=["numerical behaviour of the estimator", "WriteRTCP pipeline, Close, both pacers' timing", "loss controller update arithmetic (only its private clamp invariant is assumed)"],
     assumptions=["time.Now nondeterministic non-decreasing", "math.Pow/Exp uninterpreted", "float->int conversion as go1.24/amd64"],
 )
+
+CHECKS["C01"] = dict(
+    jobs=[dict(pkg="internal/verifchain", entry="HC01Chain", params=dict(members=8), flags=["-unwind", "1200"],
+               require_covers=["write error injected", "read error injected", "packet read", "close error"])],
+    bounds=dict(quick="every ordered pair (64) of {NoOp, TWCC header extension, NACK responder, NACK generator, report sender, report receiver, TWCC sender, RFC 8888 sender} built by their factories with default options, behind counting proxies; 2 outgoing packets (symbolic timestamp/marker/payload of 0..3 symbolic bytes, sequence numbers 65535 and 0) with a downstream write error injected at either or no position; one incoming packet of 12..16 bytes (fixed first byte 0x80, 15 symbolic bytes) or a failing read; Unbind of both streams, Close with symbolic Close errors per member; loop goroutines run in the cooperative thread model (no ticker fires)",
+                thorough="same"),
+    outside=["chains longer than 2", "rtpfb, stats, packetdump, intervalpli, flexfec, cc interceptors and the buffering ones", "ticker-driven feedback interleaved with traffic", "RTCP traffic through the chain", "non-default options", "header shapes with CSRC/extensions on the outgoing side"],
+    assumptions=["cooperative threads: goroutines run only when the caller blocks or yields", "time.NewTicker channels never fire unless the harness says so", "pion/logging is a no-op", "rand sources nondeterministic"],
+)
